@@ -29,7 +29,7 @@ end WF
 
 /-- **C05 refinement (whitelist rows)**: for every authorisation state `base` of the rest of the world and every op list without
 a re-instantiate, the composite run projects onto the C05 aspect run of the translated ops -/
-theorem C05_full_refines (base : Priv.AuthState) (ops : List Op) {s : State} {w : Wl} (hw : s.wl = some w) (hni : NoInst14 ops) :
+theorem C05_full_wl_refines (base : Priv.AuthState) (ops : List Op) {s : State} {w : Wl} (hw : s.wl = some w) (hni : NoInst14 ops) :
     ∃ w', (WF.run s ops).wl = some w' ∧ w'.v = w.v ∧
       proj05 base (WF.run s ops).now w' = Priv.run (proj05 base s.now w) (trRun05 s ops) :=
   run_sim05 base ops hw hni
@@ -37,14 +37,14 @@ theorem C05_full_refines (base : Priv.AuthState) (ops : List Op) {s : State} {w 
 /-- "whitelist membership, schedule and admin-list changes only for whitelist admins": every message the composite accepts is
 authorised by the privilege table of the aspect model; concretely every accepted message except `IncreaseMemberLimit` comes from
 an address on the admin list -/
-theorem C05_full_whitelist_admin {s s' : State} {w : Wl} (hw : s.wl = some w) {sender : Addr} {funds : List Coin} {m : ExecMsg}
+theorem C05_full_wl_admin {s s' : State} {w : Wl} (hw : s.wl = some w) {sender : Addr} {funds : List Coin} {m : ExecMsg}
     (h : WF.step s (.exec sender funds m) = .ok s') (hm : ∀ n, m ≠ .increaseMemberLimit n) : sender ∈ w.admins := by
   obtain ⟨_, hauth⟩ := accepted_auth hw h
   have : isAdmin w sender = true := by
     cases m <;> simp_all [canModify]
   simpa [isAdmin] using this
 
-theorem C05_full_table_authorised (base : Priv.AuthState) {s s' : State} {w : Wl} (hw : s.wl = some w) {sender : Addr}
+theorem C05_full_wl_table_authorised (base : Priv.AuthState) {s s' : State} {w : Wl} (hw : s.wl = some w) {sender : Addr}
     {funds : List Coin} {m : ExecMsg} (h : WF.step s (.exec sender funds m) = .ok s') :
     Priv.authorised (proj05 base s.now w) ⟨sender, false⟩
       (Priv.principal (.whitelist (wlKind05 w.v)) (msgKind05 m)) = true :=
@@ -52,7 +52,7 @@ theorem C05_full_table_authorised (base : Priv.AuthState) {s s' : State} {w : Wl
 
 /-- "(and admin-list changes never once frozen)": once `mutable = false`, the admin list and the flag of the observed contract are
 constant over every continuation — any callers (admins included), any messages, any funds, any clock -/
-theorem C05_full_frozen_admins (ops : List Op) {s : State} {w : Wl} (hw : s.wl = some w) (hf : w.mutable_ = false)
+theorem C05_full_wl_frozen_admins (ops : List Op) {s : State} {w : Wl} (hw : s.wl = some w) (hf : w.mutable_ = false)
     (hni : NoInst14 ops) : ∃ w', (WF.run s ops).wl = some w' ∧ w'.admins = w.admins ∧ w'.mutable_ = false := by
   let base : Priv.AuthState := ⟨0, 0, none, none, none, 0, false, [], false, none, [], none, [], 0, 0⟩
   obtain ⟨w', hw', _, hsim⟩ := run_sim05 base ops hw hni
@@ -61,7 +61,7 @@ theorem C05_full_frozen_admins (ops : List Op) {s : State} {w : Wl} (hw : s.wl =
   exact ⟨w', hw', this.1, this.2⟩
 
 /-- `Freeze` by an admin of a mutable list does reach that state; `whitelist-immutable` has no admin list to freeze -/
-theorem C05_full_freeze_freezes {s s' : State} {w : Wl} (hw : s.wl = some w) {sender : Addr} {funds : List Coin}
+theorem C05_full_wl_freeze_freezes {s s' : State} {w : Wl} (hw : s.wl = some w) {sender : Addr} {funds : List Coin}
     (h : WF.step s (.exec sender funds .freeze) = .ok s') : ∃ w', s'.wl = some w' ∧ w'.mutable_ = false ∧ w'.admins = w.admins := by
   simp only [WF.step] at h
   obtain ⟨w0, b1, w1, msgs, b2, hw0, _, hh, _, rfl⟩ := execute_ok h
